@@ -306,12 +306,18 @@ func gen(r *vlib.R, n int, tier string, emit func(string)) {
 	// splitmix64 sequence; re-key from a scrambled output so that seeds 1..5
 	// are unrelated streams (everything still derives from VERIF_SEED).
 	r = vlib.NewR(r.U64() ^ 0xc13c13c13c13c13)
-	probeBudget = 60
+	probeBudget = 45
 	if tier == "thorough" {
 		probeBudget = 150
 	}
 	genL3(r, tier, emit, &n)
 	genBreaker(r, emit, &n, map[bool]int{false: 6, true: 60}[tier == "thorough"])
+	// single upstream attempts through the real queryServer: what reaches the breaker
+	qsOut := []string{"reply0", "reply2", "reply3", "reply5", "reply9", "drop", "attempt", "work", "ended", "pastdeadline", "cancelmid", "deadlinemid"}
+	for i := map[bool]int{false: 14, true: 60}[tier == "thorough"]; i > 0; i-- {
+		emit("fail qs " + vlib.Pick(r, qsOut))
+		n--
+	}
 	genStateless(r, emit, &n, 40)
 	for n > 0 {
 		size, mn, mx, valid := genNew(r)
@@ -1015,8 +1021,10 @@ func genL3(r *vlib.R, tier string, emit func(string), n *int) {
 		emit(fmt.Sprintf("fail l3v6 %s %s", vlib.Pick(r, []string{"off", "off", "shadow", "enforce"}), vlib.Pick(r, []string{"servfail", "refused"})))
 		*n--
 	}
-	emit(fmt.Sprintf("fail nss6 %s %d", vlib.B(r.Chance(1, 3)), 1+r.Intn(3))) // mostly without a ledger (accounting off)
-	*n--
+	if r.Bool() { // 2 s each (the job's start-up grace): every other quick run, always in thorough
+		emit(fmt.Sprintf("fail nss6 %s %d", vlib.B(r.Chance(1, 3)), 1+r.Intn(3))) // mostly without a ledger (accounting off)
+		*n--
+	}
 	if tier == "thorough" {
 		emit("fail nss6 t 2")
 		emit("fail nss6 f 2")
